@@ -5,3 +5,14 @@ impl Clone for PartialModel {
         ensures r == *self,
     { unimplemented!() }
 }
+// ---- A-eq (PartialModel): the derived `PartialEq` of PartialModel (it compares the two bit sets) is an uninterpreted relation about
+// which nothing is assumed; it is declared so that code comparing models is within the verifier's reach ----
+impl PartialEq for PartialModel {
+    #[verifier::external_body]
+    fn eq(&self, other: &Self) -> (b: bool)
+    { unimplemented!() }
+}
+impl vstd::std_specs::cmp::PartialEqSpecImpl for PartialModel {
+    open spec fn obeys_eq_spec() -> bool { true }
+    uninterp spec fn eq_spec(&self, other: &Self) -> bool;
+}
